@@ -265,6 +265,22 @@ func nackWire(name string) []byte {
 	return append([]byte{}, w.Join()...)
 }
 
+// lpWrap puts a network-layer packet into an NDNLPv2 frame (LpPacket), optionally with a PIT token.
+func lpWrap(inner []byte, token bool) []byte {
+	lp := &spec.LpPacket{Fragment: enc.Wire{inner}}
+	if token {
+		lp.PitToken = []byte{0xc2, 0x00, 0x00, 0x01}
+	}
+	pkt := &spec.Packet{LpPacket: lp}
+	e := spec.PacketEncoder{}
+	e.Init(pkt)
+	w := e.Encode(pkt)
+	if w == nil {
+		report.Fatal("cannot encode LpPacket")
+	}
+	return append([]byte{}, w.Join()...)
+}
+
 func rel(opName, iName string) string {
 	switch {
 	case opName == iName:
@@ -286,6 +302,7 @@ type cfgT struct {
 	digs      []string
 	maxInt    int
 	dataNames []string
+	lpData    []string // additional Data-arrival variants: the Data wrapped in an NDNLPv2 frame ("tok": with a PIT token, "plain": Fragment only)
 	nackNames []string
 	adv10     bool
 	advNext   bool
@@ -334,6 +351,11 @@ func (s *sys) Ops(i any) []explore.Op {
 	if len(in.ints) > 0 {
 		for _, n := range c.dataNames {
 			add("Data(%s)", n)
+		}
+		for _, v := range c.lpData {
+			for _, n := range c.dataNames {
+				add("Data(%s,lp=%s)", n, v)
+			}
 		}
 		for _, n := range c.nackNames {
 			add("Nack(%s)", n)
@@ -510,7 +532,12 @@ func (s *sys) step(in *inst, op string) []report.Violation {
 				must = append(must, x)
 			}
 		}
-		in.face.onPkt(enc.NewBufferReader(d.wire))
+		// The implicit digest is that of the Data packet itself, however it is framed on the link.
+		if len(a) > 1 {
+			in.face.onPkt(enc.NewBufferReader(lpWrap(d.wire, a[1] == "lp=tok")))
+		} else {
+			in.face.onPkt(enc.NewBufferReader(d.wire))
+		}
 		for _, x := range must {
 			if len(x.res) == 0 {
 				why := x.lostBy
@@ -912,18 +939,18 @@ var configs = map[string]cfgT{
 		dataNames: n3, nackNames: n3, advNext: true},
 	// implicit digests
 	"digest": {names: n2, cbps: []bool{false, true}, lives: []int{10}, digs: []string{"none", "right", "wrong"}, maxInt: 3,
-		dataNames: n2, nackNames: []string{"/a"}, advNext: true},
+		dataNames: n2, lpData: []string{"tok", "plain"}, nackNames: []string{"/a"}, advNext: true},
 	// producer side: handler registration histories, longest-prefix dispatch, reply deadline
 	"handler": {prefixes: n4, inNames: []string{"/a", "/a/b", "/a/b/c", "/a/b/c/d", "/a/b/c/x", "/a/x"}, inLives: []int{10, 20}, maxIn: 2, adv10: true},
 	// component types: names equal in every component's value bytes but not in its type must not
 	// share PIT nodes (Data/Nack for one must not resolve the other) ...
 	"typed": {names: nt, cbps: []bool{false, true}, lives: []int{10}, digs: []string{"none"}, maxInt: 3,
-		dataNames: append([]string{"/a"}, nt...), nackNames: nt, advNext: true},
+		dataNames: append([]string{"/a"}, nt...), lpData: []string{"tok"}, nackNames: nt, advNext: true},
 	// ... nor FIB nodes (handlers attached at such prefixes must not collide)
 	"typedh": {prefixes: nt, inNames: nt, inLives: []int{10}, maxIn: 2, adv10: true},
 	// both sides at once (thorough tier)
 	"mixed": {names: n2, cbps: []bool{false, true}, lives: []int{10}, digs: []string{"none"}, maxInt: 2,
-		dataNames: n2, nackNames: n2, advNext: true, adv10: true, split: true,
+		dataNames: n2, lpData: []string{"tok"}, nackNames: n2, advNext: true, adv10: true, split: true,
 		prefixes: n2, inNames: []string{"/a", "/a/b"}, inLives: []int{10}, maxIn: 1},
 }
 
